@@ -3,9 +3,12 @@
    removals that match or change nothing (PlNone, PlRead, PlTempOnly) the primary file
    content is the same after EVERY prefix of the script, and after every completed script,
    whatever the plan, no temporary or staged file is left, nothing is buffered and the
-   handle is open. *)
+   handle is open.  C15_read_* / C15_unchanged_write_* join this with the database model: the plan is the one
+   IO.plan_of derives from the model's own step; every read, getter, iteration, reindex, reopen (also through a
+   handle) has a pure plan in every state, and so has every removal / update after which the model's rows are what
+   they were (e.g. a removal whose query selects nothing: C15_remove_selecting_nothing). *)
 From Coq Require Import List ZArith NArith Bool.
-From TF Require Import Base Query Index DB IO proofs.IOP.
+From TF Require Import Base Query Index DB Spec IO proofs.IOP proofs.PlanP proofs.PureP proofs.IndexDefs proofs.DBReadP.
 Import ListNotations.
 
 Theorem C15_reads_pure : forall old p k, pure_plan p ->
@@ -17,6 +20,30 @@ Theorem C15_clean_after_every_operation : forall old p,
   let w := run_steps (world_of old) (script_of old p) in w_disk w = plan_target old p /\ clean w.
 Proof. exact run_script_complete. Qed.
 
+Theorem C15_read_leaves_file_and_rows : forall E C norm s o k, is_read o = true ->
+  let old := st_rows s in
+  w_disk (run_steps (world_of old) (firstn k (script_of old (plan_of o old (st_rows (fst (step E C norm s o))))))) = old
+  /\ st_rows (fst (step E C norm s o)) = old.
+Proof. exact read_leaves_file. Qed.
+Theorem C15_unchanged_write_leaves_file : forall E C norm s o k, uses_temp o = true -> forallb nan_free_point (st_rows s) = true ->
+  st_rows (fst (step E C norm s o)) = st_rows s ->
+  let old := st_rows s in
+  w_disk (run_steps (world_of old) (firstn k (script_of old (plan_of o old (st_rows (fst (step E C norm s o))))))) = old.
+Proof. exact unchanged_write_leaves_file. Qed.
+Theorem C15_remove_selecting_nothing : forall E C norm s q m, Inv s -> wf_query E q -> index_safe q ->
+  (forall p, In p (st_rows s) -> hit E q m p = false) ->
+  st_rows (fst (step E C norm s (Remove q m))) = st_rows s /\ snd (step E C norm s (Remove q m)) = ONat 0.
+Proof. exact remove_selecting_nothing_changes_nothing. Qed.
+(* which operations count as reads: everything but inserts, removals, updates and remove_all *)
+Example C15_reads_listed : forallb is_read [Search (QNoop AMeas) None true; Count (QNoop AMeas) None; Contains (QNoop AMeas) None;
+    Get (QNoop AMeas) None; Select None (QNoop AMeas) None; All true; Len; Iter; GetMeasurements; GetTagKeys None; GetTagValues [] None;
+    GetFieldKeys None; GetFieldValues [] None; GetTimestamps None; Reindex; Reopen true; IndexValid;
+    Handle [] HLen; Handle [] HIter; Handle [] (HAll true); Handle [] (HSearch (QNoop AMeas) true); Handle [] HGetTimestamps] = true.
+Proof. reflexivity. Qed.
+
 Print Assumptions C15_reads_pure.
+Print Assumptions C15_read_leaves_file_and_rows.
+Print Assumptions C15_unchanged_write_leaves_file.
+Print Assumptions C15_remove_selecting_nothing.
 Print Assumptions C15_no_temp_left.
 Print Assumptions C15_clean_after_every_operation.
